@@ -264,7 +264,8 @@ where subsPanics (inLoop : Bool) : Subs → List Nat → List String
 
 def opPanics (_nq : Nat) : Op → List String
   | .gate g bits => gatePanics false g bits
-  | .cond _ _ g bits => gatePanics false g bits
+  | .cond control _ g bits =>
+    (if control.length > 64 then ["cond-more-than-64-bits"] else []) ++ gatePanics false g bits
   | _ => []
 
 /-- Index of the operation at which the MODEL's export panics (attribution of a panic to an operation;
